@@ -24,7 +24,7 @@ ASSUMPTIONS = [
     "session id, timestamp, length and signature bytes are judged by C01/C03, not here",
     "timedeltas strictly between 23:59:00 and 24:00:00 may be accepted (as 23:59) or rejected; one-character names of 2+ UTF-8 bytes and positions outside 0..100 are not judged",
     "fixed bytes of templates that no repository test pins (schedules, shutter) are a transcription of the pinned tree",
-    "host zone UTC for this property (zones are C10/C11)",
+    "host zone UTC except for the create_schedule sweep over six zones on offset-change days (zones are C10/C11's main subject)",
 ]
 
 
@@ -47,6 +47,20 @@ def all_cases(tier, seed):
             nid[pos] = v
             for kind, op, args in ops:
                 cases.append({"kind": kind, "op": op, "args": args, "id": bytes(nid).hex(), "key": base["key"], "now": base["now"], "zone": "UTC"})
+    # create_schedule in zones with DST / odd offsets, on and around offset-change days (local noon as "now")
+    from ref import zones as Z
+
+    zones = ["Asia/Jerusalem", "America/New_York", "Australia/Lord_Howe", "Asia/Kathmandu", "Pacific/Kiritimati", "Pacific/Pago_Pago"]
+    mins = A.GRID_MIN + [90, 119, 120, 121, 150, 180, 181] if tier == "quick" else sorted(set(A.GRID_MIN) | set(range(0, 1440, 5)))
+    for zone in zones:
+        for d in Z.dates_for(zone, "quick"):
+            if tier == "quick" and d not in Z.transition_days(zone) and d.month != 7:
+                continue
+            now = float(Z.epoch_at(zone, d, 12, 0, 0)) + 0.25
+            for m in mins:
+                for days in ([], [0, 6]):
+                    cases.append({"kind": 1, "op": "create_schedule", "args": {"start": A.hm(m), "end": A.hm((m + 95) % 1440), "days": days},
+                                  "id": base["id"], "key": base["key"], "now": now, "zone": zone})
     return cases
 
 
@@ -64,7 +78,7 @@ def run_job(job):
         for case in cases:
             r = run.run(case)
             ok = A.judge_c02(case, r, res)
-            res.case((case["op"], case["args"], case["id"]), nontrivial=ok is not None)
+            res.case((case["op"], case["args"], case["id"], case.get("zone"), case["now"]), nontrivial=ok is not None)
             if ok and len(res.samples) < 2 and r["writes"]:
                 res.sample({"case": case, "command_frame": r["writes"][-1].hex()})
     finally:
